@@ -246,7 +246,6 @@ func drainBG() {
 //	confirms X     GetBlockByHash(X) then read of its Confirms (network.handleGetConfirmsMsg)
 //	top X          GetCandidatesTop(X)                 (RPC)
 //	acct           balance of u1 in the canonical (stable) state: AccountManager().GetCanonicalAccount (RPC)
-//	unconfirmed X  GetUnConfirmByHeight(height(X), X) then read of its Confirms (block sender)
 func (in *inst) do(req string) string {
 	w := in.w
 	f := strings.Fields(req)
@@ -294,14 +293,6 @@ func (in *inst) do(req string) string {
 		vsync.Access(unsafe.Pointer(&b.Confirms), false) // resMsg.Pack = block.Confirms
 		pack := b.Confirms
 		return fmt.Sprintf("%d confirms %s", len(pack), signers(b.Hash(), pack))
-	case "unconfirmed":
-		b, err := in.db.GetUnConfirmByHeight(w.height[f[1]], w.hash[f[1]])
-		if err != nil {
-			return err.Error()
-		}
-		vsync.Access(unsafe.Pointer(&b.Confirms), false)
-		pack := b.Confirms
-		return fmt.Sprintf("%d confirms %s", len(pack), signers(b.Hash(), pack))
 	case "top":
 		var l []string
 		for _, c := range in.db.GetCandidatesTop(w.hash[f[1]]) {
@@ -315,6 +306,21 @@ func (in *inst) do(req string) string {
 	panic("bad request " + req)
 }
 
+func (in *inst) drainFeeds() {
+	for len(in.confirmCh) > 0 {
+		<-in.confirmCh
+	}
+	for len(in.fetchCh) > 0 {
+		<-in.fetchCh
+	}
+	for len(in.stableCh) > 0 {
+		<-in.stableCh
+	}
+	for len(in.currentCh) > 0 {
+		<-in.currentCh
+	}
+}
+
 func (in *inst) record(client, req, res string) {
 	in.mu.Lock()
 	in.results[client] = append(in.results[client], req+"="+res)
@@ -326,7 +332,7 @@ func (in *inst) record(client, req, res string) {
 
 type observation struct {
 	Outcome string
-	Bad     []string // violations of the emitted-confirm oracle
+	Bad     [][2]string // violations of the signature oracle: (fingerprint key, text)
 }
 
 // observe renders everything the property talks about. It runs after all threads have finished, on
@@ -380,7 +386,7 @@ func (in *inst) observe() observation {
 		}
 		fmt.Fprintf(&sb, " | sigCache=%s", valid)
 		if valid != "valid" {
-			ob.Bad = append(ob.Bad, fmt.Sprintf("signature cache holds (hash of %s, a signature that does not recover to the node over it)", w.nameOfHash(ch, 0)))
+			ob.Bad = append(ob.Bad, [2]string{"sigCache-holds-invalid-signature", fmt.Sprintf("signature cache holds (hash of %s, a signature that does not recover to the node over it)", w.nameOfHash(ch, 0))})
 		}
 	}
 	sb.WriteString(" | evil=")
@@ -404,11 +410,21 @@ func (in *inst) observe() observation {
 		em = append(em, fmt.Sprintf("%s@%d", w.nameOfHash(c.Hash, c.Height), c.Height))
 		id, err := c.SignInfo.RecoverNodeID(c.Hash)
 		if err != nil || string(id) != self {
-			ob.Bad = append(ob.Bad, fmt.Sprintf("emitted confirm for %s@%d is not a signature of the node over that block", w.nameOfHash(c.Hash, c.Height), c.Height))
+			ob.Bad = append(ob.Bad, [2]string{"emitted-confirm-not-own-signature", fmt.Sprintf("emitted confirm for %s@%d is not a signature of the node over that block", w.nameOfHash(c.Hash, c.Height), c.Height)})
 		}
-		b, err := in.db.GetBlockByHash(c.Hash)
-		if err != nil || b.Height() != c.Height {
-			ob.Bad = append(ob.Bad, fmt.Sprintf("emitted confirm names %s@%d which is not a stored block of that height", w.nameOfHash(c.Hash, c.Height), c.Height))
+		// the named block must be a block of that height that this node was given or mined itself (it may
+		// have been pruned since, when another fork became stable)
+		known := false
+		if n, ok := w.name[c.Hash]; ok && w.height[n] == c.Height {
+			known = true
+		}
+		for _, b := range in.mined {
+			if b.Hash() == c.Hash && b.Height() == c.Height {
+				known = true
+			}
+		}
+		if !known {
+			ob.Bad = append(ob.Bad, [2]string{"emitted-confirm-names-unknown-block", fmt.Sprintf("emitted confirm names %s@%d which is not a block of that height", w.nameOfHash(c.Hash, c.Height), c.Height)})
 		}
 	}
 	sort.Strings(em)
@@ -432,8 +448,8 @@ func (in *inst) observe() observation {
 	sort.Strings(cf)
 	fmt.Fprintf(&sb, " | stableFeed=%s | currentFeed=%s", strings.Join(sf, ","), strings.Join(cf, ","))
 	// stored confirm lists must carry valid deputy signatures only
-	if strings.Contains(sb.String(), "INVALID") {
-		ob.Bad = append(ob.Bad, "a stored confirm list or the signature cache holds a signature that does not recover to a deputy / the node")
+	if strings.Contains(sb.String(), "[INVALID") || strings.Contains(sb.String(), ",INVALID") {
+		ob.Bad = append(ob.Bad, [2]string{"stored-confirm-invalid-signature", "a stored confirm list holds a signature that does not recover to a deputy over the block"})
 	}
 	ob.Outcome = sb.String()
 	return ob
